@@ -821,7 +821,11 @@ impl<T, R> VecRecognizer<T, R> {
     }
 }
 
-pub type CollaspsibleRec<R> = FirstOf<R, SimpleAttrBody<R>>;
+/// Recognizer for a collection that is the body of an attribute. The record form (`@attr({ .. })`, which the writers
+/// use for collections of fewer than two elements) takes precedence over the form where the elements are the body of
+/// the attribute itself: for a collection of collections `@attr({})` is the empty collection, not a collection holding
+/// one empty collection (which is written `@attr({{}})`).
+pub type CollaspsibleRec<R> = FirstOf<SimpleAttrBody<R>, R>;
 
 impl<T: RecognizerReadable> RecognizerReadable for Vec<T> {
     type Rec = VecRecognizer<T, T::Rec>;
@@ -834,8 +838,8 @@ impl<T: RecognizerReadable> RecognizerReadable for Vec<T> {
 
     fn make_attr_recognizer() -> Self::AttrRec {
         FirstOf::new(
-            VecRecognizer::new(true, T::make_recognizer()),
             SimpleAttrBody::new(VecRecognizer::new(false, T::make_recognizer())),
+            VecRecognizer::new(true, T::make_recognizer()),
         )
     }
 
@@ -1073,11 +1077,11 @@ where
         // As for vectors, the entries can be the body of the attribute itself or a record that is the single
         // item of that body (which is how the attribute is presented when it is read from a model value).
         FirstOf::new(
-            HashMapRecognizer::new_attr(K::make_recognizer(), V::make_recognizer()),
             SimpleAttrBody::new(HashMapRecognizer::new(
                 K::make_recognizer(),
                 V::make_recognizer(),
             )),
+            HashMapRecognizer::new_attr(K::make_recognizer(), V::make_recognizer()),
         )
     }
 
